@@ -521,6 +521,35 @@ def line_break_agreement(prog, chk, rid):
     where = "%s:%s" % (se.file, se.line)
     if not counters or not n_sites:
         raise AnalysisBroken("no `++pos.line` under a case label found in the JSON tokenizer")
+    # stripComments skips comment text with forward searches: each of them has to stop at every line-break byte (a line comment ends
+    # there, a block comment copies it), or a CR / LF disappears with the comment
+    scs = [g for g in prog.functions.values() if g.name == "Json::stripComments" and g.blocks]
+    if not scs:
+        raise AnalysisBroken("Json::stripComments not found")
+    sc_ = scs[0]
+    scans = 0
+    for c_ in q.calls(sc_):
+        callee = sc_.nodes[c_].get("callee") or ""
+        args_ = q.call_args(sc_, c_)
+        if callee not in ("String::findOneOf", "String::find") or len(args_) < 2 or q.call_object(sc_, c_) is not None:
+            continue
+        if callee == "String::findOneOf":
+            sset = CursorAnalysis(sc_, []).set_of(args_[1]) or set()
+        else:
+            v_ = fin.eval_expr(sc_, args_[1], {})
+            sset = {v_} if isinstance(v_, int) else (CursorAnalysis(sc_, []).set_of(args_[1]) or set())
+        if not sset:
+            continue
+        scans += 1
+        miss = sorted(counters - set(sset))
+        if miss:
+            chk.bad(rid, sc_, "comment-scan-skips-line-break:" + ",".join(str(b) for b in miss), sc_.where(c_),
+                    "this search skips comment text up to one of the bytes %s; the tokenizer counts %s as line breaks: a comment that ends at "
+                    "byte %s (CR-only or CRLF text) swallows the line break - or everything up to the next LF" % (sorted(sset), sorted(counters), miss), evals=2)
+        else:
+            chk.ok(rid, sc_, "comment scan stops at every line-break byte (%s)" % sorted(sset), sc_.where(c_), "stop set vs the tokenizer's line-break set", evals=2)
+    if not scans:
+        raise AnalysisBroken("stripComments: no forward search over comment text found")
     if counters == stops:
         chk.ok(rid, se, "line breaks %s counted and honoured by the column walk" % sorted(counters), where, "%d counting sites, case labels vs comparison constants" % n_sites, evals=n_sites + 1)
     else:
